@@ -2,7 +2,7 @@
    root positions), acceptance on the documented input format, the star dimension defect, and the
    leg permutation of TTNO.from_tensor. *)
 From Coq Require Import List Arith Bool ZArith Lia Permutation.
-From PTN Require Import TTN.Store Tree.RTree Tree.RTreeProofs Special.Chain.
+From PTN Require Import TTN.Store TTN.Inv TTN.InvProofs TTN.InvBuild Tree.RTree Tree.RTreeProofs Special.Chain.
 Import ListNotations.
 
 (* ================================================================================================ *)
@@ -18,10 +18,9 @@ Section Assoc.
   Lemma aget_None_keys l k : aget k l = None <-> ~ In k (akeys l).
   Proof.
     induction l as [|[k' v] t IH]; simpl; [tauto|].
-    destruct (Nat.eqb_spec k k'); subst; split; intros H; try discriminate; try tauto.
-    - exfalso; apply H; auto.
-    - intros [E|E]; [congruence|]. apply IH in H; auto.
-    - apply IH; intros E; apply H; auto.
+    destruct (Nat.eqb_spec k k') as [->|N].
+    - split; [discriminate|]. intros H; exfalso; apply H; auto.
+    - rewrite IH. split; [intros H [E|E]; [congruence|auto] | intros H E; apply H; auto].
   Qed.
 
   Lemma amem_false_keys l k : amem k l = false <-> ~ In k (akeys l).
@@ -78,7 +77,7 @@ Qed.
 Lemma pop_lt {A} (l : list A) i : i < length l -> exists x l', pop i l = Some (x, l').
 Proof.
   revert i; induction l as [|a t IH]; intros i H; simpl in *; [lia|].
-  destruct i; [eauto|]. destruct (IH i) as (x & l' & E); [lia|]. rewrite E; eauto.
+  destruct i as [|i]; simpl; [eauto|]. destruct (IH i) as (x & l' & E); [lia|]. rewrite E; eauto.
 Qed.
 
 Lemma move_same {A} (l : list A) i : i < length l -> move i i l = Some l.
@@ -152,16 +151,16 @@ Qed.
 (* ================================================================================================ *)
 (* fresh wires / atoms                                                                              *)
 (* ================================================================================================ *)
-Lemma fresh_wires_spec ds : forall s s' ws, fresh_wires s ds = (s', ws) ->
+Lemma fw_spec ds : forall s s' ws, fresh_wires s ds = (s', ws) ->
   ws = seq (next_wire s) (length ds) /\ nodes s' = nodes s /\ tensors s' = tensors s /\ root s' = root s
   /\ dims s' = dims s ++ combine (seq (next_wire s) (length ds)) ds
   /\ next_wire s' = next_wire s + length ds.
 Proof.
   induction ds as [|d t IH]; intros s s' ws H; simpl in H.
-  - inversion H; subst; simpl. rewrite app_nil_r, Nat.add_0_r. auto.
+  - inversion H; subst; simpl. rewrite app_nil_r, Nat.add_0_r. repeat split; auto.
   - match type of H with context [fresh_wires ?s1 t] => destruct (fresh_wires s1 t) as [s2 ws2] eqn:E end.
     inversion H; subst. apply IH in E. simpl in E. destruct E as (-> & En & Et & Er & Ed & Ew).
-    simpl. rewrite En, Et, Er, Ed, Ew, <- app_assoc. simpl. repeat split; auto. lia.
+    simpl. rewrite En, Et, Er, Ed, Ew, <- app_assoc. simpl. repeat split; auto; lia.
 Qed.
 
 Definition dims_bounded (s : store) : Prop := forall w, In w (akeys (dims s)) -> w < next_wire s.
@@ -193,13 +192,14 @@ Lemma add_root_spec n shp s :
   /\ (forall j, j < length shp -> leg_dim s n j (nth j shp 0)).
 Proof.
   unfold add_root; simpl.
-  destruct (fresh_wires empty_store shp) as [s1 ws] eqn:E. apply fresh_wires_spec in E.
+  destruct (fresh_wires empty_store shp) as [s1 ws] eqn:E. apply fw_spec in E.
   simpl in E. destruct E as (-> & En & Et & Er & Ed & Ew).
   intros H; inversion H; subst; clear H. simpl. rewrite En, Et. simpl. repeat split; auto.
   - intros w Hw. simpl in *. rewrite Ed, akeys_combine_seq in Hw. apply in_seq in Hw. rewrite Ew. lia.
   - intros j Hj. exists (new_node shp), {| axes := seq 0 (length shp); atoms := [next_atom s1]; bnd := [] |}.
     simpl. rewrite Nat.eqb_refl. repeat split; auto.
-    rewrite Ed. rewrite !seq_nth by auto. simpl. apply (aget_combine_seq 0 shp j Hj).
+    rewrite Ed. assert (E : nth j (seq 0 (length shp)) 0 = j) by (rewrite seq_nth; lia).
+    rewrite E. etransitivity; [|apply (aget_combine_seq 0 shp j Hj)]. f_equal. apply seq_nth; lia.
 Qed.
 
 Lemma set_nth_other {A} (l : list A) i j x d : i <> j -> nth j (set_nth i x l) d = nth j l d.
@@ -227,25 +227,25 @@ Proof.
   destruct (Nat.ltb_spec (nvirt pn) (nlegs pn)) as [Hpl|]; simpl in H; [|discriminate].
   match type of H with context [negb (Nat.eqb ?a ?b)] => destruct (Nat.eqb a b) eqn:Hd end; simpl in H; [|discriminate].
   rewrite olp_new, olc_first_open in H by auto.
-  destruct (fresh_wires s shp) as [s1 ws] eqn:E. apply fresh_wires_spec in E.
+  destruct (fresh_wires s shp) as [s1 ws] eqn:E. apply fw_spec in E.
   destruct E as (-> & En & Et & Er & Ed & Ew).
   inversion H; subst; clear H. simpl.
   assert (Hcn : aget c (nodes s) = None) by (unfold amem in Hm; destruct (aget c (nodes s)); congruence).
   assert (Hcp : c <> p) by congruence.
   rewrite En, Et, Er.
   repeat split; auto.
-  - rewrite aset_absent by auto. reflexivity.
+  - rewrite (aset_absent (nodes s) c) by auto. reflexivity.
   - intros B w Hw. simpl in *. rewrite Ed, akeys_app, akeys_combine_seq in Hw. rewrite Ew.
     apply in_app_or in Hw. destruct Hw as [Hw|Hw]; [apply B in Hw; lia| apply in_seq in Hw; lia].
   - intros y leg d Hy (yn & yt & Hyn & Hyt & Hd'). simpl.
     destruct (Nat.eq_dec y p) as [->|Nyp].
-    + exists (with_child pn c), yt. rewrite aget_aset_eq, aget_aset_neq, Hyt by auto.
+    + exists (with_child pn c), yt. simpl. rewrite aget_aset_eq, aget_aset_neq, Hyt by auto.
       rewrite Hp in Hyn; inversion Hyn; subst. simpl. repeat split; auto.
       rewrite Ed, aget_app, Hd'. auto.
-    + exists yn, yt. rewrite aget_aset_neq, aget_aset_neq, Hyn, aget_aset_neq, Hyt by auto.
+    + exists yn, yt. simpl. rewrite aget_aset_neq, aget_aset_neq, Hyn, aget_aset_neq, Hyt by auto.
       repeat split; auto. rewrite Ed, aget_app, Hd'. auto.
   - intros B leg Hl1 Hl2. simpl.
-    eexists (mk_child shp p cleg), _. rewrite aget_aset_neq, aget_aset_eq, aget_aset_eq by auto.
+    eexists (mk_child shp p cleg), _. simpl. rewrite aget_aset_neq, aget_aset_eq, aget_aset_eq by auto.
     repeat split; auto. simpl.
     set (a := nth leg (child_perm (length shp) cleg) 0).
     assert (Ha : a < length shp /\ a <> cleg).
@@ -257,8 +257,8 @@ Proof.
     rewrite Ed, aget_app.
     destruct (aget (next_wire s + a) (dims s)) eqn:Eg.
     + exfalso. assert (In (next_wire s + a) (akeys (dims s))).
-      { destruct (in_dec Nat.eq_dec (next_wire s + a) (akeys (dims s))); auto.
-        apply aget_None_keys in n. congruence. }
+      { destruct (in_dec Nat.eq_dec (next_wire s + a) (akeys (dims s))) as [|Nin]; auto.
+        apply aget_None_keys in Nin. congruence. }
       apply B in H. lia.
     + apply aget_combine_seq; auto.
 Qed.
@@ -313,22 +313,30 @@ Definition path_nodes (l : list (id * node)) (e : id) (en : node) (xs : list pst
   | (x, _, _) :: _ => aset e (with_child en x) l ++ chain_nodes e xs
   end.
 
+(* what success implies about the number of legs of the attached tensors *)
+Fixpoint path_lens_ok (xs : list pstep) : Prop :=
+  match xs with
+  | [] => True
+  | (x, shp, cleg) :: rest => cleg < length shp /\ (rest <> [] -> 2 <= length shp) /\ path_lens_ok rest
+  end.
+
 Theorem attach_path_nodes xs : forall s e en s',
   aget e (nodes s) = Some en ->
   attach_path s e (nvirt en) xs = Some s' ->
   Forall (fun t => snd t <= 1) xs ->
   nodes s' = path_nodes (nodes s) e en xs /\ root s' = root s
-  /\ NoDup (path_ids xs) /\ (forall x, In x (path_ids xs) -> aget x (nodes s) = None).
+  /\ NoDup (path_ids xs) /\ (forall x, In x (path_ids xs) -> aget x (nodes s) = None)
+  /\ path_lens_ok xs /\ (xs <> [] -> nvirt en < nlegs en).
 Proof.
   induction xs as [|[[x shp] cleg] rest IH]; intros s e en s' He H Hc.
-  - simpl in H. inversion H; subst. simpl. repeat split; auto. constructor. intros x [].
+  - simpl in H. inversion H; subst. simpl. repeat split; auto. constructor. intros x []. congruence.
   - simpl in H. destruct (add_child s x shp cleg e (nvirt en)) as [s1|] eqn:E1; simpl in H; [|discriminate].
     inversion Hc as [|? ? Hc0 Hc']; subst. simpl in Hc0.
     destruct (add_child_spec _ _ _ _ _ _ _ He E1 Hc0) as (Hx & Hxe & Hcl & Hpl & Hn & Hr & _).
     assert (Hx1 : aget x (nodes s1) = Some (mk_child shp e cleg)).
     { rewrite Hn, aget_aset_neq, aget_app, Hx by auto. simpl. rewrite Nat.eqb_refl. auto. }
     change 1 with (nvirt (mk_child shp e cleg)) in H.
-    destruct (IH _ _ _ _ Hx1 H Hc') as (Hn' & Hr' & Hnd & Hfresh).
+    destruct (IH _ _ _ _ Hx1 H Hc') as (Hn' & Hr' & Hnd & Hfresh & Hlens & Hne).
     assert (Hnotin : ~ In x (path_ids rest)).
     { intros Hin. apply Hfresh in Hin. congruence. }
     assert (Hfresh0 : forall y, In y (path_ids rest) -> aget y (nodes s) = None /\ y <> e).
@@ -341,9 +349,6 @@ Proof.
       * rewrite Hn. rewrite (aset_app_l _ _ _ _ en) by auto.
         assert (Exe : aget x (aset e (with_child en x) (nodes s)) = None).
         { rewrite aget_aset_neq by auto. auto. }
-        rewrite <- aset_absent by auto.
-        (* aset x (with_child ..) on  (aset e .. l ++ [(x, mk)])  *)
-        rewrite aset_absent by auto.
         assert (E2 : aset x (with_child (mk_child shp e cleg) y) (aset e (with_child en x) (nodes s) ++ [(x, mk_child shp e cleg)])
                      = aset e (with_child en x) (nodes s) ++ [(x, with_child (mk_child shp e cleg) y)]).
         { clear - Exe. induction (aset e (with_child en x) (nodes s)) as [|[k v] t IHt]; simpl in *.
@@ -353,6 +358,11 @@ Proof.
     + congruence.
     + simpl. constructor; auto.
     + intros y [<-|Hy]; auto. apply Hfresh0; auto.
+    + exact Hcl.
+    + intros Hrest. apply Hne in Hrest. rewrite nvirt_mk_child in Hrest. unfold nlegs, mk_child in Hrest; simpl in Hrest.
+      rewrite child_perm_length in Hrest by auto. lia.
+    + exact Hlens.
+    + intros _. exact Hpl.
 Qed.
 
 (* acceptance of a path: consecutive shapes agree on the bond dimension *)
@@ -385,19 +395,925 @@ Proof.
     assert (Hx1 : aget x (nodes s1) = Some (mk_child shp e cleg)).
     { rewrite Hn, aget_aset_neq, aget_app, Hx by auto. simpl. rewrite Nat.eqb_refl. auto. }
     destruct rest as [|r0 rest'].
-    + exists s1. simpl. repeat split; auto. intros y leg d' Hy. apply Hframe. intros ->. apply Hy; simpl; auto.
+    + exists s1. simpl. split; [reflexivity|]. split; [auto|].
+      intros y leg d' Hy. apply Hframe. intros ->. apply Hy; simpl; auto.
     + destruct Hrest as (H2 & Hrest).
       change 1 with (nvirt (mk_child shp e cleg)).
-      destruct (IH s1 x (mk_child shp e cleg) _ Hx1) as (s' & E' & B' & Hframe'); auto.
-      * unfold nlegs; simpl. rewrite child_perm_length by auto. lia.
-      * simpl. apply Hnew; auto.
-      * intros y Hy. rewrite Hn.
+      assert (A1 : nvirt (mk_child shp e cleg) < nlegs (mk_child shp e cleg)).
+      { rewrite nvirt_mk_child. unfold nlegs, mk_child; simpl. rewrite child_perm_length by auto. lia. }
+      assert (A2 : leg_dim s1 x (nvirt (mk_child shp e cleg)) (nth (nth 1 (child_perm (length shp) cleg) 0) shp 0)).
+      { simpl. apply Hnew; auto. }
+      assert (A3 : forall y, In y (path_ids (r0 :: rest')) -> aget y (nodes s1) = None).
+      { intros y Hy. rewrite Hn.
         assert (y <> e).
-        { intros ->. apply Hfresh in He; [discriminate|]. simpl. auto. }
+        { intros ->. rewrite Hfresh in He; [discriminate|]. simpl. auto. }
         assert (y <> x) by (intros ->; auto).
         rewrite aget_aset_neq, aget_app by auto. rewrite (Hfresh y) by (simpl; auto). simpl.
-        destruct (Nat.eqb_spec y x); congruence.
-      * exists s'. repeat split; auto.
-        intros y leg d' Hy Hld. apply Hframe'; [intros Hin; apply Hy; simpl; auto|].
-        apply Hframe; auto. intros ->. apply Hy; simpl; auto.
+        destruct (Nat.eqb_spec y x); congruence. }
+      destruct (IH s1 x (mk_child shp e cleg) _ Hx1 A1 A2 (HB B) Hnd' A3 Hrest) as (s' & E' & B' & Hframe').
+      exists s'. split; [exact E'|]. split; [exact B'|].
+      intros y leg d' Hy Hld. apply Hframe'; [intros Hin; apply Hy; simpl; auto|].
+      apply Hframe; [intros ->; apply Hy; simpl; auto | exact Hld].
+Qed.
+
+(* ================================================================================================ *)
+(* the matrix-product constructor                                                                   *)
+(* ================================================================================================ *)
+Lemma forM_None {A S} (xs : list A) (body : S -> A -> option S) : forM xs None body = None.
+Proof. unfold forM. induction xs; simpl; auto. Qed.
+
+Lemma forM_cons {A S} (x : A) xs (s0 : option S) body : forM (x :: xs) s0 body = forM xs (bind s0 (fun s => body s x)) body.
+Proof. reflexivity. Qed.
+
+Lemma forM_map {A B S} (g : A -> B) xs (s0 : option S) body :
+  forM (map g xs) s0 body = forM xs s0 (fun s x => body s (g x)).
+Proof. unfold forM. revert s0; induction xs; simpl; auto. Qed.
+
+Lemma forM_ext {A S} xs (s0 : option S) (b1 b2 : S -> A -> option S) :
+  (forall s x, In x xs -> b1 s x = b2 s x) -> forM xs s0 b1 = forM xs s0 b2.
+Proof.
+  unfold forM. revert s0; induction xs as [|x xs IH]; intros s0 H; simpl; auto.
+  rewrite IH by (intros; apply H; simpl; auto). f_equal.
+  destruct s0; simpl; auto. apply H; simpl; auto.
+Qed.
+
+Definition left_steps (shapes : list (list nat)) (r : nat) : list pstep :=
+  map (fun i => let site := r - 1 - i in (site, nth site shapes [], if site =? 0 then 0 else 1)) (seq 0 r).
+Definition right_steps (shapes : list (list nat)) (r : nat) : list pstep :=
+  map (fun site => (site, nth site shapes [], 0)) (seq (S r) (length shapes - S r)).
+
+Definition left_end (m : mpt) : id * nat :=
+  match lefts m with
+  | [] => let r := root_or0 (mst m) in
+          (r, match aget r (nodes (mst m)) with Some n => length (children n) | None => 0 end)
+  | x :: _ => (x, 1)
+  end.
+Definition right_end (m : mpt) : id :=
+  match rights m with [] => root_or0 (mst m) | _ => last (rights m) 0 end.
+
+Lemma left_path xs : forall m m',
+  forM xs (Some m) (fun m t => attach_left m (fst (fst t)) (snd (fst t)) (snd t =? 0)) = Some m' ->
+  Forall (fun t : pstep => snd t <= 1) xs ->
+  attach_path (mst m) (fst (left_end m)) (snd (left_end m)) xs = Some (mst m')
+  /\ lefts m' = rev (path_ids xs) ++ lefts m /\ rights m' = rights m.
+Proof.
+  induction xs as [|[[x shp] cleg] rest IH]; intros m m' H Hc.
+  - simpl in H. inversion H; subst. simpl. auto.
+  - rewrite forM_cons in H. simpl in H.
+    inversion Hc as [|? ? Hc0 Hc']; subst. simpl in Hc0.
+    unfold attach_left in H. fold (left_end m) in H.
+    destruct (left_end m) as [p pleg] eqn:El.
+    assert (Ecl : (if cleg =? 0 then 0 else 1) = cleg) by (destruct cleg as [|[|]]; simpl; auto; lia).
+    rewrite Ecl in H.
+    destruct (add_child (mst m) x shp cleg p pleg) as [s1|] eqn:E1; simpl in H; [|rewrite forM_None in H; discriminate].
+    apply IH in H; auto. destruct H as (Hp & Hl & Hr).
+    simpl. rewrite E1. simpl. simpl in Hp. unfold left_end in Hp; simpl in Hp.
+    repeat split; auto. rewrite Hl. simpl. rewrite <- app_assoc. reflexivity.
+Qed.
+
+Lemma last_snoc {A} (l : list A) x d : last (l ++ [x]) d = x.
+Proof. induction l as [|a t IH]; simpl; auto. destruct (t ++ [x]) eqn:E; auto. destruct t; discriminate. Qed.
+
+Lemma right_path xs : forall m m',
+  forM xs (Some m) (fun m t => attach_right m (fst (fst t)) (snd (fst t))) = Some m' ->
+  Forall (fun t : pstep => snd t = 0) xs ->
+  attach_path (mst m) (right_end m) 1 xs = Some (mst m')
+  /\ rights m' = rights m ++ path_ids xs /\ lefts m' = lefts m.
+Proof.
+  induction xs as [|[[x shp] cleg] rest IH]; intros m m' H Hc.
+  - simpl in H. inversion H; subst. simpl. rewrite app_nil_r. auto.
+  - rewrite forM_cons in H. simpl in H.
+    inversion Hc as [|? ? Hc0 Hc']; subst. simpl in Hc0. subst cleg.
+    unfold attach_right in H. fold (right_end m) in H.
+    destruct (add_child (mst m) x shp 0 (right_end m) 1) as [s1|] eqn:E1; simpl in H; [|rewrite forM_None in H; discriminate].
+    apply IH in H; auto. destruct H as (Hp & Hr & Hl).
+    simpl. rewrite E1. simpl. simpl in Hp.
+    assert (Ee : right_end {| mst := s1; lefts := lefts m; rights := rights m ++ [x] |} = x).
+    { unfold right_end; simpl. rewrite last_snoc. destruct (rights m); reflexivity. }
+    rewrite Ee in Hp. repeat split; auto. rewrite Hr. simpl. rewrite <- app_assoc. reflexivity.
+Qed.
+
+Lemma rev_seq_map r : forall n, n <= r -> map (fun x => r - 1 - x) (seq (r - n) n) = rev (seq 0 n).
+Proof.
+  induction n as [|n IH]; intros H; auto.
+  replace (seq 0 (S n)) with (seq 0 n ++ [n]) by (symmetry; apply seq_S).
+  rewrite rev_app_distr. simpl. replace (S (r - S n)) with (r - n) by lia.
+  rewrite IH by lia. f_equal. lia.
+Qed.
+
+Lemma path_ids_left shapes r : path_ids (left_steps shapes r) = rev (seq 0 r).
+Proof.
+  unfold path_ids, left_steps. rewrite map_map. simpl.
+  pose proof (rev_seq_map r r (le_n r)) as H. rewrite Nat.sub_diag in H. exact H.
+Qed.
+
+Lemma path_ids_right shapes r : path_ids (right_steps shapes r) = seq (S r) (length shapes - S r).
+Proof. unfold path_ids, right_steps. rewrite map_map. simpl. apply map_id. Qed.
+
+Lemma left_steps_cleg shapes r : Forall (fun t : pstep => snd t <= 1) (left_steps shapes r).
+Proof. apply Forall_forall. intros t Ht. apply in_map_iff in Ht. destruct Ht as (i & <- & _). simpl. destruct (_ =? 0); lia. Qed.
+Lemma right_steps_cleg shapes r : Forall (fun t : pstep => snd t = 0) (right_steps shapes r).
+Proof. apply Forall_forall. intros t Ht. apply in_map_iff in Ht. destruct Ht as (i & <- & _). reflexivity. Qed.
+Lemma right_steps_cleg1 shapes r : Forall (fun t : pstep => snd t <= 1) (right_steps shapes r).
+Proof. eapply Forall_impl; [|apply right_steps_cleg]. simpl; intros; lia. Qed.
+
+(* the root's record: children appended in the order left, right *)
+Definition add_children (n : node) (cs : list id) : node :=
+  {| parent := parent n; children := children n ++ cs; perm := perm n; shape := shape n |}.
+
+(* the node dictionary of from_tensor_list in closed form *)
+Definition mps_nodes (shapes : list (list nat)) (r : nat) : list (id * node) :=
+  (r, add_children (new_node (nth r shapes []))
+        ((if 0 <? r then [r - 1] else []) ++ (if S r <? length shapes then [S r] else [])))
+  :: chain_nodes r (left_steps shapes r) ++ chain_nodes r (right_steps shapes r).
+
+Lemma with_child_add n c : with_child n c = add_children n [c].
+Proof. reflexivity. Qed.
+Lemma add_children_nil n : add_children n [] = n.
+Proof. destruct n; unfold add_children; simpl. rewrite app_nil_r. reflexivity. Qed.
+Lemma add_children_app n a b : add_children (add_children n a) b = add_children n (a ++ b).
+Proof. unfold add_children; simpl. rewrite app_assoc. reflexivity. Qed.
+
+Lemma right_steps_head shapes r : S r < length shapes ->
+  exists rest, right_steps shapes r = (S r, nth (S r) shapes [], 0) :: rest.
+Proof.
+  intros H. unfold right_steps. destruct (length shapes - S r) eqn:E; [lia|]. simpl. eauto.
+Qed.
+Lemma right_steps_nil shapes r : length shapes <= S r -> right_steps shapes r = [].
+Proof. intros H. unfold right_steps. replace (length shapes - S r) with 0 by lia. reflexivity. Qed.
+Lemma left_steps_head shapes r : 0 < r ->
+  exists rest, left_steps shapes r = (r - 1, nth (r - 1) shapes [], if r - 1 =? 0 then 0 else 1) :: rest.
+Proof.
+  intros H. unfold left_steps. destruct r; [lia|]. simpl. rewrite Nat.sub_0_r. eauto.
+Qed.
+
+Theorem mps_from_list_nodes shapes r m :
+  mps_from_list shapes r = Some m ->
+  r < length shapes /\ nodes (mst m) = mps_nodes shapes r /\ root (mst m) = Some r
+  /\ lefts m = seq 0 r /\ rights m = seq (S r) (length shapes - S r)
+  /\ (path_lens_ok (left_steps shapes r) /\ path_lens_ok (right_steps shapes r)
+      /\ (0 < r -> S r < length shapes -> 2 <= length (nth r shapes []))).
+Proof.
+  unfold mps_from_list. destruct (Nat.leb_spec (length shapes) r) as [|Hr]; [discriminate|].
+  destruct (Nat.eqb_spec r 0) as [->|Hr0].
+  - (* leftmost node is the root *)
+    unfold mps_leftmost. destruct (add_root empty_store 0 (nth 0 shapes [])) as [s0|] eqn:E0; simpl; [|discriminate].
+    destruct (add_root_spec _ _ _ E0) as (Hn0 & Hroot0 & _).
+    intros H. split; auto.
+    assert (Hrn : aget 0 (nodes s0) = Some (new_node (nth 0 shapes []))) by (rewrite Hn0; reflexivity).
+    assert (Hgoal : exists s', attach_path s0 0 0 (right_steps shapes 0) = Some s' /\ mst m = s'
+                               /\ lefts m = [] /\ rights m = path_ids (right_steps shapes 0)).
+    { destruct (Nat.ltb_spec 1 (length shapes)) as [H1|H1].
+      - destruct (add_child s0 1 (nth 1 shapes []) 0 0 0) as [s1|] eqn:E1; simpl in H; [|discriminate].
+        unfold right_steps. destruct (length shapes - 1) eqn:EL; [lia|]. simpl.
+        rewrite E1. simpl.
+        replace (length shapes - 2) with n in H by lia.
+        rewrite <- (map_id (seq 2 n)) in H at 1.
+        pose proof (right_path (map (fun site => (site, nth site shapes [], 0)) (seq 2 n))
+                      {| mst := s1; lefts := []; rights := [1] |} m) as RP.
+        rewrite forM_map in RP. simpl in RP. rewrite map_id in H.
+        destruct RP as (Hp & Hrr & Hll); auto.
+        { apply Forall_forall. intros t Ht. apply in_map_iff in Ht. destruct Ht as (i & <- & _). reflexivity. }
+        exists (mst m). unfold right_end in Hp; simpl in Hp. repeat split; auto.
+      - simpl in H. replace (length shapes - 2) with 0 in H by lia. simpl in H. inversion H; subst. simpl.
+        rewrite right_steps_nil by lia. simpl. eauto. }
+    destruct Hgoal as (s' & Hp & -> & Hl & Hrg).
+    change 0 with (nvirt (new_node (nth 0 shapes []))) in Hp at 2.
+    destruct (attach_path_nodes _ _ _ _ _ Hrn Hp (right_steps_cleg1 shapes 0)) as (Hn & Hroot & _ & _ & Hlens & Hne).
+    rewrite Hn, Hroot, Hroot0, Hl, Hrg, path_ids_right.
+    split; [|split; [reflexivity|split; [reflexivity|split; [reflexivity|]]]];
+      [|split; [exact I|split; [exact Hlens|intros; lia]]].
+    unfold mps_nodes. simpl. rewrite Hn0.
+    destruct (Nat.ltb_spec 1 (length shapes)) as [H1|H1].
+    + destruct (right_steps_head shapes 0 H1) as (rest & Er). rewrite Er. simpl.
+      rewrite with_child_add. reflexivity.
+    + rewrite right_steps_nil by lia. simpl. rewrite add_children_nil. reflexivity.
+  - (* a root in the middle or at the right end *)
+    destruct (add_root empty_store r (nth r shapes [])) as [s0|] eqn:E0; simpl; [|discriminate].
+    destruct (add_root_spec _ _ _ E0) as (Hn0 & Hroot0 & _).
+    intros H. split; auto.
+    set (rn := new_node (nth r shapes [])) in *.
+    assert (Hrn : aget r (nodes s0) = Some rn) by (rewrite Hn0; simpl; rewrite Nat.eqb_refl; reflexivity).
+    destruct (forM (seq 0 r) (Some {| mst := s0; lefts := []; rights := [] |})
+                (fun m i => attach_left m (r - 1 - i) (nth (r - 1 - i) shapes []) (r - 1 - i =? 0))) as [m1|] eqn:EL;
+      [|rewrite forM_None in H; discriminate].
+    (* left part *)
+    assert (EL' : forM (left_steps shapes r) (Some {| mst := s0; lefts := []; rights := [] |})
+                    (fun m t => attach_left m (fst (fst t)) (snd (fst t)) (snd t =? 0)) = Some m1).
+    { unfold left_steps. rewrite forM_map. rewrite <- EL. apply forM_ext. intros s i _. simpl.
+      destruct (r - 1 - i =? 0); reflexivity. }
+    destruct (left_path _ _ _ EL' (left_steps_cleg shapes r)) as (Hp1 & Hl1 & Hr1).
+    unfold left_end in Hp1; simpl in Hp1. unfold root_or0 in Hp1. rewrite Hroot0, Hrn in Hp1. simpl in Hp1.
+    change 0 with (nvirt rn) in Hp1.
+    destruct (attach_path_nodes _ _ _ _ _ Hrn Hp1 (left_steps_cleg shapes r)) as (Hn1 & Hroot1 & _ & _ & Hlens1 & Hne1).
+    destruct (left_steps_head shapes r ltac:(lia)) as (lrest & Els).
+    assert (Hrn1 : aget r (nodes (mst m1)) = Some (with_child rn (r - 1))).
+    { rewrite Hn1, Els. unfold path_nodes. rewrite aget_app, aget_aset_eq. reflexivity. }
+    (* right part *)
+    assert (ER' : forM (right_steps shapes r) (Some m1) (fun m t => attach_right m (fst (fst t)) (snd (fst t))) = Some m).
+    { unfold right_steps. rewrite forM_map. exact H. }
+    destruct (right_path _ _ _ ER' (right_steps_cleg shapes r)) as (Hp2 & Hr2 & Hl2).
+    unfold right_end in Hp2. rewrite Hr1 in Hp2. simpl in Hp2. unfold root_or0 in Hp2. rewrite Hroot1, Hroot0 in Hp2.
+    change 1 with (nvirt (with_child rn (r - 1))) in Hp2.
+    destruct (attach_path_nodes _ _ _ _ _ Hrn1 Hp2 (right_steps_cleg1 shapes r)) as (Hn2 & Hroot2 & _ & _ & Hlens2 & Hne2).
+    rewrite Hroot2, Hroot1, Hroot0, Hl2, Hl1, Hr2, Hr1, path_ids_left, path_ids_right, rev_involutive, app_nil_r.
+    split; [|split; [reflexivity|split; [reflexivity|split; [reflexivity|]]]];
+      [|split; [exact Hlens1|split; [exact Hlens2|]]].
+    2:{ intros _ H1. destruct (right_steps_head shapes r H1) as (rest & Er).
+        assert (Hx : right_steps shapes r <> []) by (rewrite Er; discriminate).
+        apply Hne2 in Hx. rewrite nvirt_with_child in Hx. unfold nlegs, with_child, rn, new_node in Hx; simpl in Hx.
+        rewrite seq_length in Hx. unfold nvirt, nparents in Hx; simpl in Hx. lia. }
+    rewrite Hn2. unfold mps_nodes.
+    assert (E0r : (0 <? r) = true) by (apply Nat.ltb_lt; lia). rewrite E0r.
+    rewrite Hn1, Els. unfold path_nodes at 2. rewrite Hn0. simpl aset. rewrite Nat.eqb_refl. rewrite <- Els.
+    destruct (Nat.ltb_spec (S r) (length shapes)) as [H1|H1].
+    + destruct (right_steps_head shapes r H1) as (rest & Er). rewrite Er. unfold path_nodes. rewrite <- Er.
+      simpl. rewrite Nat.eqb_refl. rewrite !with_child_add, add_children_app. simpl.
+      reflexivity.
+    + rewrite right_steps_nil by lia. simpl. rewrite app_nil_r, with_child_add. reflexivity.
+Qed.
+
+(* ---- the records site by site ---------------------------------------------------------------------- *)
+Definition lnode (shapes : list (list nat)) (i : nat) : node :=
+  {| parent := Some (S i); children := if 0 <? i then [i - 1] else [];
+     perm := child_perm (length (nth i shapes [])) (if i =? 0 then 0 else 1); shape := nth i shapes [] |}.
+Definition rnode (shapes : list (list nat)) (i : nat) : node :=
+  {| parent := Some (i - 1); children := if S i <? length shapes then [S i] else [];
+     perm := seq 0 (length (nth i shapes [])); shape := nth i shapes [] |}.
+Definition rootnode (shapes : list (list nat)) (r : nat) : node :=
+  {| parent := None; children := (if 0 <? r then [r - 1] else []) ++ (if S r <? length shapes then [S r] else []);
+     perm := seq 0 (length (nth r shapes [])); shape := nth r shapes [] |}.
+Definition mps_node (shapes : list (list nat)) (r i : nat) : node :=
+  if i <? r then lnode shapes i else if r <? i then rnode shapes i else rootnode shapes r.
+
+Lemma left_steps_S shapes j :
+  left_steps shapes (S j) = (j, nth j shapes [], if j =? 0 then 0 else 1) :: left_steps shapes j.
+Proof.
+  unfold left_steps. cbn [seq map]. f_equal.
+  - replace (S j - 1 - 0) with j by lia. reflexivity.
+  - rewrite <- seq_shift, map_map. apply map_ext. intros i.
+    replace (S j - 1 - S i) with (j - 1 - i) by lia. reflexivity.
+Qed.
+
+Lemma chain_left shapes j :
+  chain_nodes j (left_steps shapes j) = map (fun i => (i, lnode shapes i)) (rev (seq 0 j)).
+Proof.
+  induction j as [|j IH]; auto.
+  rewrite left_steps_S.
+  replace (seq 0 (S j)) with (seq 0 j ++ [j]) by (symmetry; apply seq_S).
+  rewrite rev_app_distr. simpl. rewrite IH. f_equal. f_equal.
+  unfold lnode. destruct j as [|j].
+  - reflexivity.
+  - rewrite left_steps_S. simpl. rewrite Nat.sub_0_r. reflexivity.
+Qed.
+
+Lemma chain_right_gen shapes : forall k a, 1 <= a -> a + k = length shapes ->
+  chain_nodes (a - 1) (map (fun site => (site, nth site shapes [], 0)) (seq a k))
+  = map (fun i => (i, rnode shapes i)) (seq a k).
+Proof.
+  induction k as [|k IH]; intros a Ha Hk; auto.
+  simpl. f_equal.
+  - f_equal. unfold rnode. destruct k as [|k]; simpl.
+    + assert (E : (S a <? length shapes) = false) by (apply Nat.ltb_ge; lia). rewrite E. reflexivity.
+    + assert (E : (S a <? length shapes) = true) by (apply Nat.ltb_lt; lia). rewrite E. reflexivity.
+  - replace a with (S a - 1) at 1 by lia. apply IH; lia.
+Qed.
+
+Lemma chain_right shapes r : r < length shapes ->
+  chain_nodes r (right_steps shapes r) = map (fun i => (i, rnode shapes i)) (seq (S r) (length shapes - S r)).
+Proof.
+  intros H. unfold right_steps. replace r with (S r - 1) at 1 by lia. apply chain_right_gen; lia.
+Qed.
+
+Lemma aget_map_key {V} (f : nat -> V) l k :
+  aget k (map (fun i => (i, f i)) l) = if memb k l then Some (f k) else None.
+Proof.
+  unfold memb. induction l as [|a t IH]; simpl; auto.
+  destruct (Nat.eqb_spec k a); subst; simpl; auto.
+Qed.
+
+Lemma memb_true x l : memb x l = true <-> In x l.
+Proof.
+  unfold memb. rewrite existsb_exists. split.
+  - intros (y & Hy & E). apply Nat.eqb_eq in E. subst; auto.
+  - intros H. exists x. rewrite Nat.eqb_refl. auto.
+Qed.
+
+Lemma mps_nodes_keys shapes r : r < length shapes ->
+  akeys (mps_nodes shapes r) = r :: rev (seq 0 r) ++ seq (S r) (length shapes - S r).
+Proof.
+  intros H. unfold mps_nodes. simpl. rewrite akeys_app, !akeys_chain_nodes, path_ids_left, path_ids_right. reflexivity.
+Qed.
+
+Theorem mps_nodes_site shapes r i : r < length shapes -> i < length shapes ->
+  aget i (mps_nodes shapes r) = Some (mps_node shapes r i).
+Proof.
+  intros Hr Hi. unfold mps_nodes, mps_node. simpl.
+  destruct (Nat.eqb_spec i r) as [->|N].
+  - rewrite Nat.ltb_irrefl. unfold rootnode, add_children, new_node. simpl. reflexivity.
+  - rewrite chain_left, chain_right, aget_app, !aget_map_key by auto.
+    destruct (Nat.ltb_spec i r) as [L|L].
+    + assert (E : memb i (rev (seq 0 r)) = true) by (apply memb_true; rewrite <- in_rev; apply in_seq; lia).
+      rewrite E. reflexivity.
+    + assert (E : memb i (rev (seq 0 r)) = false).
+      { destruct (memb i (rev (seq 0 r))) eqn:E; auto. apply memb_true in E. rewrite <- in_rev in E. apply in_seq in E. lia. }
+      rewrite E.
+      assert (E2 : memb i (seq (S r) (length shapes - S r)) = true) by (apply memb_true; apply in_seq; lia).
+      rewrite E2. destruct (Nat.ltb_spec r i); [reflexivity|lia].
+Qed.
+
+(* the tensor axis (position in the tensor as handed over) that is bound to neighbour x *)
+Definition axis_to (n : node) (x : id) : option nat :=
+  option_map (fun k => nth k (perm n) 0) (neighbour_index n x).
+
+Lemma path_lens_left shapes r : path_lens_ok (left_steps shapes r) ->
+  forall i, i < r -> (if i =? 0 then 0 else 1) < length (nth i shapes []).
+Proof.
+  induction r as [|r IH]; intros H i Hi; [lia|].
+  rewrite left_steps_S in H. simpl in H. destruct H as (H1 & _ & H3).
+  destruct (Nat.eq_dec i r) as [->|N]; auto. apply IH; auto. lia.
+Qed.
+
+Lemma path_lens_right_gen shapes : forall k a,
+  path_lens_ok (map (fun site => (site, nth site shapes [], 0)) (seq a k)) ->
+  forall i, a <= i -> S i < a + k -> 2 <= length (nth i shapes []).
+Proof.
+  induction k as [|k IH]; intros a H i Hi1 Hi2; [lia|].
+  simpl in H. destruct H as (_ & H2 & H3).
+  destruct (Nat.eq_dec i a) as [->|N].
+  - apply H2. destruct k; [lia|]. simpl. discriminate.
+  - apply (IH (S a)); auto; lia.
+Qed.
+
+(* neighbours: exactly i-1 and i+1; axis 0 -> left neighbour, axis 1 -> right neighbour (site 0: axis 0) *)
+Theorem mps_site_facts shapes r i :
+  r < length shapes -> i < length shapes ->
+  path_lens_ok (right_steps shapes r) ->
+  (0 < r -> S r < length shapes -> 2 <= length (nth r shapes [])) ->
+  let n := mps_node shapes r i in
+  (forall x, In x (neighbouring_nodes n) <-> (S x = i \/ (x = S i /\ x < length shapes)))
+  /\ parent n = (if i <? r then Some (S i) else if r <? i then Some (i - 1) else None)
+  /\ shape n = nth i shapes []
+  /\ (0 < i -> axis_to n (i - 1) = Some 0)
+  /\ (S i < length shapes -> axis_to n (S i) = Some (if i =? 0 then 0 else 1)).
+Proof.
+  intros Hr Hi Hlr Hroot n. unfold n, mps_node.
+  destruct (Nat.ltb_spec i r) as [L|L].
+  - (* left of the root *)
+    unfold lnode, neighbouring_nodes, axis_to, neighbour_index; cbn [parent children perm shape].
+    repeat split.
+    + destruct (Nat.ltb_spec 0 i); simpl; intuition lia.
+    + destruct (Nat.ltb_spec 0 i); simpl; intuition lia.
+    + intros H0.
+      assert (E1 : (i - 1 =? S i) = false) by (apply Nat.eqb_neq; lia).
+      assert (E2 : (0 <? i) = true) by (apply Nat.ltb_lt; lia).
+      assert (E3 : (i =? 0) = false) by (apply Nat.eqb_neq; lia).
+      rewrite E1, E2, E3. cbn [index_of]. rewrite Nat.eqb_refl. reflexivity.
+    + intros _. rewrite Nat.eqb_refl. cbn [option_map]. destruct (Nat.eqb_spec i 0) as [->|]; cbn [child_perm nth]; auto.
+      destruct (length (nth 0 shapes [])); reflexivity.
+  - destruct (Nat.ltb_spec r i) as [G|G].
+    + (* right of the root *)
+      unfold rnode, neighbouring_nodes, axis_to, neighbour_index; cbn [parent children perm shape].
+      repeat split.
+      * destruct (Nat.ltb_spec (S i) (length shapes)); simpl; intuition lia.
+      * destruct (Nat.ltb_spec (S i) (length shapes)); simpl; intuition lia.
+      * intros _. rewrite Nat.eqb_refl. cbn [option_map]. destruct (length (nth i shapes [])); reflexivity.
+      * intros HS.
+        assert (E1 : (S i =? i - 1) = false) by (apply Nat.eqb_neq; lia).
+        assert (E2 : (S i <? length shapes) = true) by (apply Nat.ltb_lt; lia).
+        assert (E3 : (i =? 0) = false) by (apply Nat.eqb_neq; lia).
+        rewrite E1, E2, E3. cbn [index_of]. rewrite Nat.eqb_refl. cbn [option_map Nat.add].
+        assert (H2 : 2 <= length (nth i shapes [])).
+        { unfold right_steps in Hlr. apply (path_lens_right_gen shapes _ _ Hlr i); lia. }
+        destruct (length (nth i shapes [])) as [|[|k]]; try lia. reflexivity.
+    + (* the root *)
+      assert (i = r) by lia. subst i.
+      unfold rootnode, neighbouring_nodes, axis_to, neighbour_index; cbn [parent children perm shape].
+      repeat split.
+      * destruct (Nat.ltb_spec 0 r); destruct (Nat.ltb_spec (S r) (length shapes)); simpl; intuition lia.
+      * destruct (Nat.ltb_spec 0 r); destruct (Nat.ltb_spec (S r) (length shapes)); simpl; intuition lia.
+      * intros H0.
+        assert (E2 : (0 <? r) = true) by (apply Nat.ltb_lt; lia). rewrite E2.
+        cbn [app index_of]. rewrite Nat.eqb_refl. cbn [option_map].
+        destruct (length (nth r shapes [])); reflexivity.
+      * intros HS.
+        assert (E2 : (S r <? length shapes) = true) by (apply Nat.ltb_lt; lia). rewrite E2.
+        destruct (Nat.ltb_spec 0 r) as [H0|H0]; cbn [app index_of].
+        -- assert (E1 : (S r =? r - 1) = false) by (apply Nat.eqb_neq; lia).
+           assert (E3 : (r =? 0) = false) by (apply Nat.eqb_neq; lia).
+           rewrite E1, E3, Nat.eqb_refl. cbn [option_map].
+           pose proof (Hroot H0 HS) as H2.
+           destruct (length (nth r shapes [])) as [|[|k]]; try lia. reflexivity.
+        -- assert (r = 0) by lia. subst r. cbn [Nat.eqb option_map]. destruct (length (nth 0 shapes [])); reflexivity.
+Qed.
+
+(* ================================================================================================ *)
+(* well-formedness of the produced stores (store invariant of TTN/Inv.v)                             *)
+(* ================================================================================================ *)
+Lemma forM_inv {A S} (P : S -> Prop) (xs : list A) (body : S -> A -> option S) :
+  (forall s x s1, P s -> body s x = Some s1 -> P s1) ->
+  forall s0 s', P s0 -> forM xs (Some s0) body = Some s' -> P s'.
+Proof.
+  intros Hb. induction xs as [|x xs IH]; intros s0 s' H0 H.
+  - simpl in H. inversion H; subst; auto.
+  - rewrite forM_cons in H. simpl in H. destruct (body s0 x) as [s1|] eqn:E; [|rewrite forM_None in H; discriminate].
+    apply (IH s1 s'); [eapply Hb; eauto|exact H].
+Qed.
+
+Lemma attach_right_wf m c shp m' : Inv.wf (mst m) -> attach_right m c shp = Some m' -> Inv.wf (mst m').
+Proof.
+  unfold attach_right. intros Hw H.
+  destruct (add_child (mst m) c shp 0 _ 1) as [s|] eqn:E; simpl in H; [|discriminate].
+  inversion H; subst; simpl. eapply add_child_preserves_wf; eauto.
+Qed.
+
+Lemma attach_left_wf m c shp f m' : Inv.wf (mst m) -> attach_left m c shp f = Some m' -> Inv.wf (mst m').
+Proof.
+  unfold attach_left. intros Hw H.
+  destruct (lefts m);
+    match type of H with context [add_child ?a ?b ?c ?d ?e ?g] => destruct (add_child a b c d e g) as [s|] eqn:E end;
+    simpl in H; try discriminate; inversion H; subst; simpl; eapply add_child_preserves_wf; eauto.
+Qed.
+
+Theorem mps_from_list_wf shapes r m : mps_from_list shapes r = Some m -> wfb (mst m) = true.
+Proof.
+  intros H. apply wfb_iff. revert H. unfold mps_from_list.
+  destruct (length shapes <=? r); [discriminate|].
+  destruct (r =? 0).
+  - unfold mps_leftmost.
+    destruct (add_root empty_store 0 (nth 0 shapes [])) as [s0|] eqn:E0; simpl; [|discriminate].
+    pose proof (add_root_wf _ _ _ _ blank_empty E0) as W0.
+    destruct (1 <? length shapes).
+    + destruct (add_child s0 1 (nth 1 shapes []) 0 0 0) as [s1|] eqn:E1; simpl; [|discriminate].
+      intros H. eapply (forM_inv (fun m => Inv.wf (mst m))); [|  |exact H].
+      * intros ? ? ? Hs Hb; cbv beta in Hb; eapply attach_right_wf; eauto.
+      * simpl. eapply add_child_preserves_wf; eauto.
+    + simpl. intros H. eapply (forM_inv (fun m => Inv.wf (mst m))); [|  |exact H].
+      * intros ? ? ? Hs Hb; cbv beta in Hb; eapply attach_right_wf; eauto.
+      * exact W0.
+  - destruct (add_root empty_store r (nth r shapes [])) as [s0|] eqn:E0; simpl; [|discriminate].
+    pose proof (add_root_wf _ _ _ _ blank_empty E0) as W0.
+    destruct (forM (seq 0 r) _ _) as [m1|] eqn:EL; [|rewrite forM_None; discriminate].
+    intros H. eapply (forM_inv (fun m => Inv.wf (mst m))); [|  |exact H].
+    + intros ? ? ? Hs Hb; cbv beta in Hb; eapply attach_right_wf; eauto.
+    + eapply (forM_inv (fun m => Inv.wf (mst m))); [|  |exact EL].
+      * intros ? ? ? Hs Hb; cbv beta in Hb; eapply attach_left_wf; eauto.
+      * exact W0.
+Qed.
+
+Theorem star_build_wf center calls m : star_build center calls = Some m -> wfb (sst m) = true.
+Proof.
+  intros H. apply wfb_iff. revert H. unfold star_build, star_add_center.
+  destruct (add_root empty_store center_id center) as [s0|] eqn:E0; simpl; [|rewrite forM_None; discriminate].
+  pose proof (add_root_wf _ _ _ _ blank_empty E0) as W0.
+  intros H. eapply (forM_inv (fun m => Inv.wf (sst m))); [|  |exact H]; [|exact W0].
+  intros s x s1 Hw Hb. unfold star_add_chain_node in Hb.
+  destruct (aget center_id (nodes (sst s))) as [cn|]; [|discriminate].
+  destruct (nlegs cn <? snd x); [discriminate|].
+  destruct (length (chains s) <? snd x); [discriminate|].
+  destruct (snd x =? length (chains s)).
+  - destruct (add_child (sst s) _ (fst x) 0 center_id (nvirt cn)) as [s2|] eqn:E; simpl in Hb; [|discriminate].
+    inversion Hb; subst; simpl. eapply add_child_preserves_wf; eauto.
+  - destruct (aget (last (nth (snd x) (chains s) []) 0) (nodes (sst s))) as [pn|]; [|discriminate].
+    destruct (add_child (sst s) _ (fst x) 0 _ (nvirt pn)) as [s2|] eqn:E; simpl in Hb; [|discriminate].
+    inversion Hb; subst; simpl. eapply add_child_preserves_wf; eauto.
+Qed.
+
+Theorem fork_build_wf calls m : fork_build calls = Some m -> mainc m <> [] -> wfb (fst_ m) = true.
+Proof.
+  intros H Hne. apply wfb_iff. revert H. unfold fork_build.
+  (* invariant: the store is blank while the main chain is empty, well-formed afterwards *)
+  intros H.
+  assert (G : (mainc m = [] /\ blank (fst_ m)) \/ Inv.wf (fst_ m)).
+  { eapply (forM_inv (fun m => (mainc m = [] /\ blank (fst_ m)) \/ Inv.wf (fst_ m))); [| |exact H].
+    - intros s x s1 Hs Hb. destruct x as [shp|shp idx].
+      + unfold fork_add_main in Hb.
+        destruct (length (mainc s) =? 0) eqn:E0.
+        * destruct (add_root (fst_ s) _ shp) as [s2|] eqn:E; simpl in Hb; [|discriminate].
+          inversion Hb; subst; simpl. right. destruct Hs as [[_ Hbl]|Hw].
+          -- eapply add_root_wf; eauto.
+          -- apply Nat.eqb_eq in E0. destruct (wf_root _ Hw) as (r & rn & Hr & _).
+             unfold add_root in E. rewrite Hr in E. discriminate.
+        * destruct (aget (last (mainc s) 0) (nodes (fst_ s))) as [pn|] eqn:Ep; [|discriminate].
+          destruct (add_child (fst_ s) _ shp 0 _ (nvirt pn)) as [s2|] eqn:E; simpl in Hb; [|discriminate].
+          inversion Hb; subst; simpl. right. destruct Hs as [[_ Hbl]|Hw].
+          -- destruct Hbl as (Hn & _). rewrite Hn in Ep. discriminate.
+          -- eapply add_child_preserves_wf; eauto.
+      + unfold fork_add_sub in Hb.
+        destruct (length (mainc s) <? idx); [discriminate|].
+        destruct (length (subc s) <=? idx); [discriminate|].
+        match type of Hb with context [aget ?k (nodes (fst_ s))] => destruct (aget k (nodes (fst_ s))) as [pn|] eqn:Ep end; [|discriminate].
+        destruct (add_child (fst_ s) _ shp 0 _ (nvirt pn)) as [s2|] eqn:E; simpl in Hb; [|discriminate].
+        inversion Hb; subst; simpl. right. destruct Hs as [[_ Hbl]|Hw].
+        * destruct Hbl as (Hn & _). rewrite Hn in Ep. discriminate.
+        * eapply add_child_preserves_wf; eauto.
+    - left. split; [reflexivity|apply blank_empty]. }
+  destruct G as [[G _]|G]; [contradiction|exact G].
+Qed.
+
+(* ================================================================================================ *)
+(* TTNO.from_tensor: the leg permutation                                                             *)
+(* ================================================================================================ *)
+Section QR.
+  Variable leg : nat -> list nat.
+  Let g (c : rtree) := qr_acc leg c [].
+
+  Lemma qr_acc_unfold i cs acc :
+    qr_acc leg (RNode i cs) acc = leg i ++ fold_left (fun a c => qr_acc leg c a) cs acc.
+  Proof.
+    reflexivity.
+  Qed.
+
+  Lemma fold_qr cs : Forall (fun c => forall acc, qr_acc leg c acc = g c ++ acc) cs ->
+    forall acc, fold_left (fun a c => qr_acc leg c a) cs acc = concat (rev (map g cs)) ++ acc.
+  Proof.
+    induction 1 as [|c cs Hc _ IH]; intros acc; simpl; auto.
+    rewrite IH, Hc, concat_app. simpl. rewrite app_nil_r, <- app_assoc. reflexivity.
+  Qed.
+
+  Lemma qr_acc_acc t : forall acc, qr_acc leg t acc = g t ++ acc.
+  Proof.
+    induction t as [i cs IH] using rtree_ind2. intros acc. unfold g.
+    rewrite !qr_acc_unfold, !fold_qr by auto. rewrite app_nil_r, <- app_assoc. reflexivity.
+  Qed.
+
+  (* closed form: own legs, then the blocks of the children in REVERSE order *)
+  Theorem qr_acc_closed i cs acc :
+    qr_acc leg (RNode i cs) acc = leg i ++ concat (rev (map g cs)) ++ acc.
+  Proof.
+    rewrite qr_acc_unfold, fold_qr; auto. apply Forall_forall. intros c _. apply qr_acc_acc.
+  Qed.
+
+  (* hence the legs of the first child's subtree are the last block: what _from_tensor_rec splits off *)
+  Corollary qr_first_child_last i c cs :
+    qr_acc leg (RNode i (c :: cs)) [] = (leg i ++ concat (rev (map g cs))) ++ g c.
+  Proof.
+    rewrite qr_acc_closed. simpl. rewrite concat_app. simpl. rewrite !app_nil_r, app_assoc. reflexivity.
+  Qed.
+
+  Lemma flat_map_flat_map {A B C} (f : A -> list B) (h : B -> list C) l :
+    flat_map h (flat_map f l) = flat_map (fun a => flat_map h (f a)) l.
+  Proof. induction l; simpl; auto. rewrite flat_map_app, IHl. reflexivity. Qed.
+
+  Theorem qr_acc_perm t : Permutation (g t) (flat_map leg (ids t)).
+  Proof.
+    induction t as [i cs IH] using rtree_ind2. unfold g. rewrite qr_acc_closed, app_nil_r.
+    simpl. apply Permutation_app_head.
+    rewrite flat_map_flat_map.
+    transitivity (flat_map g cs).
+    - rewrite (flat_map_concat_map g cs). generalize (map g cs). clear.
+      induction l as [|a l IHl]; simpl; auto.
+      rewrite concat_app. simpl. rewrite app_nil_r.
+      eapply Permutation_trans; [apply Permutation_app_comm|]. apply Permutation_app_head. exact IHl.
+    - apply flat_map_perm. exact IH.
+  Qed.
+End QR.
+
+Lemma flat_map_pair_perm {A} (f h : A -> nat) l :
+  Permutation (flat_map (fun i => [f i; h i]) l) (map f l ++ map h l).
+Proof.
+  induction l as [|a l IH]; simpl; auto. constructor.
+  apply Permutation_trans with (h a :: map f l ++ map h l); [constructor; exact IH|].
+  apply Permutation_middle.
+Qed.
+
+Lemma map_add_seq n : forall k a, map (fun x => n + x) (seq a k) = seq (n + a) k.
+Proof. induction k as [|k IH]; intros a; simpl; auto. rewrite IH. f_equal. f_equal. lia. Qed.
+
+(* _get_qr_decomposition_shape yields a permutation of all 2n tensor legs whenever leg_dict is a
+   bijection nodes -> 0..n-1 *)
+Theorem ft_perm_is_permutation lg half t :
+  Permutation (map lg (ids t)) (seq 0 half) ->
+  Permutation (ft_perm lg half t) (seq 0 (2 * half)).
+Proof.
+  intros H. unfold ft_perm.
+  eapply Permutation_trans; [apply qr_acc_perm|].
+  eapply Permutation_trans; [apply flat_map_pair_perm|].
+  replace (2 * half) with (half + half) by lia. rewrite seq_app. apply Permutation_app; auto.
+  rewrite <- (map_map lg (fun x => half + x)). replace (0 + half) with (half + 0) by lia. rewrite <- map_add_seq.
+  apply Permutation_map. exact H.
+Qed.
+
+Theorem ft_perm_length lg half t : length (ft_perm lg half t) = 2 * size t.
+Proof.
+  unfold ft_perm. rewrite (Permutation_length (qr_acc_perm _ t)).
+  rewrite (Permutation_length (flat_map_pair_perm _ _ _)), app_length, !map_length, size_length_ids. lia.
+Qed.
+
+(* ================================================================================================ *)
+(* the star product state: the dimension defect                                                      *)
+(* ================================================================================================ *)
+Theorem star_dim_refuted sv dim clen nch :
+  check_ps sv dim = true -> dim <> 2%Z -> (1 <= clen)%Z -> (1 <= nch)%Z ->
+  star_cps true sv dim clen nch = None.
+Proof.
+  intros Hc Hd Hcl Hn. unfold star_cps. rewrite Hc. simpl.
+  assert (E1 : ((nch <? 0)%Z || (clen <? 0)%Z) = false).
+  { apply orb_false_iff. split; apply Z.ltb_ge; lia. }
+  rewrite E1.
+  unfold star_add_center.
+  destruct (add_root empty_store center_id (repeat 1 (Z.to_nat nch) ++ [Z.to_nat dim])) as [s0|]; simpl; auto.
+  destruct (Z.to_nat nch) as [|nc] eqn:En; [lia|].
+  destruct (Z.to_nat clen) as [|cl] eqn:Ec; [lia|].
+  cbn [seq flat_map map app]. rewrite forM_cons. cbn [bind fst snd].
+  unfold star_chain_shape.
+  assert (E2 : (Z.to_nat dim =? 2) = false).
+  { apply Nat.eqb_neq. unfold check_ps in Hc. apply andb_true_iff in Hc. destruct Hc as [Hc _].
+    apply andb_true_iff in Hc. destruct Hc as [Hc _]. apply Z.ltb_lt in Hc. lia. }
+  rewrite E2. cbn [bind]. rewrite forM_None. reflexivity.
+Qed.
+
+(* ================================================================================================ *)
+(* acceptance of the documented input format                                                         *)
+(* ================================================================================================ *)
+Definition mps_shape_i (bonds : list nat) (opens : list (list nat)) (i : nat) : list nat :=
+  (if 0 <? i then [nth (i - 1) bonds 0] else []) ++ (if i <? length bonds then [nth i bonds 0] else []) ++ nth i opens [].
+
+Lemma mps_shapes_mid_spec : forall bonds opens bl, length opens = S (length bonds) ->
+  length (mps_shapes_mid bl bonds opens) = length opens /\
+  forall j, j < length opens ->
+    nth j (mps_shapes_mid bl bonds opens) [] =
+    nth j (bl :: bonds) 0 :: (if j <? length bonds then [nth j bonds 0] else []) ++ nth j opens [].
+Proof.
+  induction bonds as [|b bs IH]; intros opens bl H.
+  - destruct opens as [|o [|]]; simpl in H; try discriminate. simpl. split; auto.
+    intros [|j] Hj; [reflexivity|lia].
+  - destruct opens as [|o os]; simpl in H; [discriminate|]. injection H as H.
+    destruct (IH os b H) as [IH1 IH2]. simpl. split; [rewrite IH1; reflexivity|].
+    intros [|j] Hj; [reflexivity|]. rewrite IH2 by lia. reflexivity.
+Qed.
+
+Lemma mps_shapes_spec bonds opens : length opens = S (length bonds) ->
+  length (mps_shapes bonds opens) = length opens /\
+  forall i, i < length opens -> nth i (mps_shapes bonds opens) [] = mps_shape_i bonds opens i.
+Proof.
+  intros H. destruct bonds as [|b bs].
+  - destruct opens as [|o [|]]; simpl in H; try discriminate. simpl. split; auto.
+    intros [|i] Hi; [reflexivity|lia].
+  - destruct opens as [|o os]; simpl in H; [discriminate|]. injection H as H.
+    destruct (mps_shapes_mid_spec bs os b H) as [M1 M2]. simpl. split; [rewrite M1; reflexivity|].
+    intros [|i] Hi; [reflexivity|]. rewrite M2 by lia. unfold mps_shape_i. simpl. rewrite Nat.sub_0_r. reflexivity.
+Qed.
+
+Section Accept.
+  Variables (bonds : list nat) (opens : list (list nat)).
+  Hypothesis Hlen : length opens = S (length bonds).
+  Let shapes := mps_shapes bonds opens.
+  Let HL : length shapes = S (length bonds).
+  Proof. unfold shapes. rewrite (proj1 (mps_shapes_spec _ _ Hlen)). exact Hlen. Qed.
+  Let Hsh : forall i, i <= length bonds -> nth i shapes [] = mps_shape_i bonds opens i.
+  Proof. intros i Hi. apply (proj2 (mps_shapes_spec _ _ Hlen)). lia. Qed.
+
+  Lemma right_dims_ok : forall k a, 1 <= a -> a + k = length shapes ->
+    path_dims_ok (nth (a - 1) bonds 0) (map (fun site => (site, nth site shapes [], 0)) (seq a k)).
+  Proof.
+    induction k as [|k IH]; intros a Ha Hk; [exact I|].
+    pose proof (IH (S a)) as IH'. clear IH.
+    cbn [seq map]. set (rest := map (fun site => (site, nth site shapes [], 0)) (seq (S a) k)) in *.
+    cbn [path_dims_ok]. rewrite Hsh by lia. unfold mps_shape_i.
+    assert (E0 : (0 <? a) = true) by (apply Nat.ltb_lt; lia). rewrite E0.
+    split; [lia|]. split; [simpl; lia|]. split; [reflexivity|].
+    destruct k as [|k].
+    - exact I.
+    - assert (E1 : (a <? length bonds) = true) by (apply Nat.ltb_lt; lia). rewrite E1.
+      replace rest with (map (fun site => (site, nth site shapes [], 0)) (seq (S a) (S k))) by reflexivity.
+      cbn [seq map]. split; [simpl; lia|].
+      cbn [app length child_perm seq nth].
+      replace (S a - 1) with a in IH' by lia. apply IH'; lia.
+  Qed.
+
+  Lemma left_dims_ok : forall j, j <= length bonds ->
+    path_dims_ok (nth (j - 1) bonds 0) (left_steps shapes j).
+  Proof.
+    induction j as [|j IH]; intros Hj; [exact I|].
+    rewrite left_steps_S. set (rest := left_steps shapes j) in *.
+    cbn [path_dims_ok]. rewrite Hsh by lia. unfold mps_shape_i.
+    assert (E1 : (j <? length bonds) = true) by (apply Nat.ltb_lt; lia). rewrite E1.
+    destruct j as [|j].
+    - cbn. repeat split; lia.
+    - assert (E0 : (0 <? S j) = true) by reflexivity. rewrite E0.
+      assert (E2 : (S j =? 0) = false) by reflexivity. rewrite E2.
+      split; [lia|]. split; [simpl; lia|]. split; [simpl; f_equal; lia|].
+      assert (Er : rest = (j, nth j shapes [], if j =? 0 then 0 else 1) :: left_steps shapes j)
+        by (unfold rest; apply left_steps_S).
+      destruct rest as [|r0 rest']; [discriminate|].
+      split; [simpl; lia|].
+      cbn [app length child_perm seq nth]. apply IH. lia.
+  Qed.
+End Accept.
+
+Lemma left_path_eq xs : forall m, Forall (fun t : pstep => snd t <= 1) xs ->
+  forM xs (Some m) (fun m t => attach_left m (fst (fst t)) (snd (fst t)) (snd t =? 0))
+  = option_map (fun s' => {| mst := s'; lefts := rev (path_ids xs) ++ lefts m; rights := rights m |})
+               (attach_path (mst m) (fst (left_end m)) (snd (left_end m)) xs).
+Proof.
+  induction xs as [|[[x shp] cleg] rest IH]; intros m Hc.
+  - simpl. destruct m; reflexivity.
+  - rewrite forM_cons. inversion Hc as [|? ? Hc0 Hc']; subst. simpl in Hc0.
+    cbn [bind fst snd attach_path]. unfold attach_left. fold (left_end m).
+    destruct (left_end m) as [p pleg] eqn:El.
+    assert (Ecl : (if cleg =? 0 then 0 else 1) = cleg) by (destruct cleg as [|[|]]; simpl; auto; lia).
+    rewrite Ecl. cbn [fst snd].
+    destruct (add_child (mst m) x shp cleg p pleg) as [s1|] eqn:E1; cbn [bind]; [|rewrite forM_None; reflexivity].
+    rewrite IH by auto. unfold left_end at 1 2. cbn [lefts mst fst snd rights].
+    destruct (attach_path s1 x 1 rest); cbn [option_map]; auto.
+    simpl. rewrite <- app_assoc. reflexivity.
+Qed.
+
+Lemma right_path_eq xs : forall m, Forall (fun t : pstep => snd t = 0) xs ->
+  forM xs (Some m) (fun m t => attach_right m (fst (fst t)) (snd (fst t)))
+  = option_map (fun s' => {| mst := s'; lefts := lefts m; rights := rights m ++ path_ids xs |})
+               (attach_path (mst m) (right_end m) 1 xs).
+Proof.
+  induction xs as [|[[x shp] cleg] rest IH]; intros m Hc.
+  - simpl. rewrite app_nil_r. destruct m; reflexivity.
+  - rewrite forM_cons. inversion Hc as [|? ? Hc0 Hc']; subst. simpl in Hc0. subst cleg.
+    cbn [bind fst snd attach_path]. unfold attach_right. fold (right_end m).
+    destruct (add_child (mst m) x shp 0 (right_end m) 1) as [s1|] eqn:E1; cbn [bind]; [|rewrite forM_None; reflexivity].
+    rewrite IH by auto.
+    assert (Ee : right_end {| mst := s1; lefts := lefts m; rights := rights m ++ [x] |} = x).
+    { unfold right_end; simpl. rewrite last_snoc. destruct (rights m); reflexivity. }
+    rewrite Ee. cbn [lefts mst rights].
+    destruct (attach_path s1 x 1 rest); cbn [option_map]; auto.
+    simpl. rewrite <- app_assoc. reflexivity.
+Qed.
+
+(* from_tensor_list accepts every tensor list in the documented format, for every root position *)
+Theorem mps_accepts bonds opens r :
+  length opens = S (length bonds) -> r <= length bonds ->
+  exists m, mps_from_list (mps_shapes bonds opens) r = Some m.
+Proof.
+  intros Hlen Hr.
+  set (shapes := mps_shapes bonds opens).
+  assert (HL : length shapes = S (length bonds)).
+  { unfold shapes. rewrite (proj1 (mps_shapes_spec _ _ Hlen)). exact Hlen. }
+  assert (Hsh : forall i, i <= length bonds -> nth i shapes [] = mps_shape_i bonds opens i).
+  { intros i Hi. apply (proj2 (mps_shapes_spec _ _ Hlen)). lia. }
+  unfold mps_from_list.
+  destruct (Nat.leb_spec (length shapes) r); [lia|].
+  destruct (add_root_accepted empty_store r (nth r shapes []) eq_refl) as (s0 & E0).
+  destruct (add_root_spec _ _ _ E0) as (Hn0 & Hroot0 & HB0 & Hld0).
+  set (rn := new_node (nth r shapes [])) in *.
+  assert (Hrn : aget r (nodes s0) = Some rn) by (rewrite Hn0; simpl; rewrite Nat.eqb_refl; reflexivity).
+  assert (Hnl : nlegs rn = length (nth r shapes [])) by (unfold nlegs, rn, new_node; simpl; apply seq_length).
+  assert (Hfresh0 : forall x, x <> r -> aget x (nodes s0) = None).
+  { intros x Hx. rewrite Hn0. simpl. destruct (Nat.eqb_spec x r); [contradiction|reflexivity]. }
+  destruct (Nat.eqb_spec r 0) as [->|Hr0].
+  - (* leftmost node is the root *)
+    unfold mps_leftmost. rewrite E0. cbn [bind].
+    destruct (Nat.ltb_spec 1 (length shapes)) as [H1|H1].
+    + destruct (attach_path_accepts (right_steps shapes 0) s0 0 rn (nth 0 bonds 0) Hrn) as (s' & Hp & _).
+      * rewrite Hnl, Hsh by lia. unfold mps_shape_i. simpl. unfold nvirt, rn, new_node, nparents; simpl.
+        destruct (0 <? length bonds) eqn:E; simpl; [lia|apply Nat.ltb_ge in E; lia].
+      * unfold nvirt, rn, new_node, nparents; simpl.
+        assert (Hl0 : 0 < length (nth 0 shapes [])).
+        { rewrite Hsh by lia. unfold mps_shape_i. simpl.
+          destruct (0 <? length bonds) eqn:E; simpl; [lia|apply Nat.ltb_ge in E; lia]. }
+        pose proof (Hld0 0 Hl0) as Hd. rewrite Hsh in Hd by lia. unfold mps_shape_i in Hd. simpl in Hd.
+        assert (E : (0 <? length bonds) = true) by (apply Nat.ltb_lt; lia). rewrite E in Hd. exact Hd.
+      * exact HB0.
+      * rewrite path_ids_right. apply seq_NoDup.
+      * intros x Hx. rewrite path_ids_right in Hx. apply in_seq in Hx. apply Hfresh0. lia.
+      * unfold right_steps. apply (right_dims_ok bonds opens Hlen (length shapes - 1) 1); fold shapes; lia.
+      * destruct (right_steps_head shapes 0 H1) as (rest & Er).
+        assert (Erest : rest = map (fun site => (site, nth site shapes [], 0)) (seq 2 (length shapes - 2))).
+        { unfold right_steps in Er. replace (length shapes - 1) with (S (length shapes - 2)) in Er by lia.
+          cbn [seq map] in Er. inversion Er. reflexivity. }
+        rewrite Er in Hp. cbn [attach_path] in Hp. change (nvirt rn) with 0 in Hp.
+        destruct (add_child s0 1 (nth 1 shapes []) 0 0 0) as [s1|]; cbn [bind] in Hp; [|discriminate].
+        cbn [bind].
+        assert (Hc : Forall (fun t : pstep => snd t = 0) rest).
+        { rewrite Erest. apply Forall_forall. intros t Ht. apply in_map_iff in Ht. destruct Ht as (i & <- & _). reflexivity. }
+        pose proof (right_path_eq rest {| mst := s1; lefts := []; rights := [1] |} Hc) as RP.
+        unfold right_end in RP; cbn [rights mst last lefts] in RP.
+        rewrite Hp in RP. cbn [option_map] in RP.
+        rewrite Erest in RP at 1. rewrite forM_map in RP. cbn [fst snd] in RP.
+        rewrite RP. eauto.
+    + cbn [bind]. replace (length shapes - 2) with 0 by lia. simpl. eauto.
+  - (* a root in the middle or at the right end *)
+    rewrite E0. cbn [bind].
+    (* left part *)
+    assert (Hl0 : 0 < length (nth r shapes [])).
+    { rewrite Hsh by lia. unfold mps_shape_i. assert (E : (0 <? r) = true) by (apply Nat.ltb_lt; lia). rewrite E. simpl. lia. }
+    destruct (attach_path_accepts (left_steps shapes r) s0 r rn (nth (r - 1) bonds 0) Hrn) as (s1 & Hp1 & HB1 & Hfr1).
+    + rewrite Hnl. unfold nvirt, rn, new_node, nparents; simpl. lia.
+    + unfold nvirt, rn, new_node, nparents; simpl.
+      pose proof (Hld0 0 Hl0) as Hd. rewrite Hsh in Hd by lia. unfold mps_shape_i in Hd.
+      assert (E : (0 <? r) = true) by (apply Nat.ltb_lt; lia). rewrite E in Hd. exact Hd.
+    + exact HB0.
+    + rewrite path_ids_left. apply NoDup_rev, seq_NoDup.
+    + intros x Hx. rewrite path_ids_left in Hx. rewrite <- in_rev in Hx. apply in_seq in Hx. apply Hfresh0. lia.
+    + apply (left_dims_ok bonds opens Hlen). lia.
+    + assert (EL : forM (seq 0 r) (Some {| mst := s0; lefts := []; rights := [] |})
+                     (fun m i => attach_left m (r - 1 - i) (nth (r - 1 - i) shapes []) (r - 1 - i =? 0))
+                   = Some {| mst := s1; lefts := seq 0 r; rights := [] |}).
+      { pose proof (left_path_eq (left_steps shapes r) {| mst := s0; lefts := []; rights := [] |} (left_steps_cleg shapes r)) as LP.
+        unfold left_end in LP; cbn [lefts mst fst snd] in LP. unfold root_or0 in LP. rewrite Hroot0, Hrn in LP.
+        change (length (children rn)) with (nvirt rn) in LP. rewrite Hp1 in LP. cbn [option_map rights] in LP.
+        rewrite path_ids_left, rev_involutive, app_nil_r in LP. rewrite <- LP.
+        unfold left_steps. rewrite forM_map. apply forM_ext. intros s i _. simpl.
+        destruct (r - 1 - i =? 0); reflexivity. }
+      rewrite EL.
+      destruct (Nat.ltb_spec (S r) (length shapes)) as [H1|H1].
+      * (* right part *)
+        destruct (attach_path_nodes _ _ _ _ _ Hrn Hp1 (left_steps_cleg shapes r)) as (Hn1 & Hroot1 & _).
+        destruct (left_steps_head shapes r ltac:(lia)) as (lrest & Els).
+        assert (Hrn1 : aget r (nodes s1) = Some (with_child rn (r - 1))).
+        { rewrite Hn1, Els. unfold path_nodes. rewrite aget_app, aget_aset_eq. reflexivity. }
+        assert (Hl2 : 2 <= length (nth r shapes [])).
+        { rewrite Hsh by lia. unfold mps_shape_i.
+          assert (E : (0 <? r) = true) by (apply Nat.ltb_lt; lia). rewrite E.
+          assert (E' : (r <? length bonds) = true) by (apply Nat.ltb_lt; lia). rewrite E'. simpl. lia. }
+        destruct (attach_path_accepts (right_steps shapes r) s1 r (with_child rn (r - 1)) (nth r bonds 0) Hrn1) as (s2 & Hp2 & _).
+        -- rewrite nvirt_with_child, nlegs_with_child, Hnl. unfold nvirt, rn, new_node, nparents; simpl. lia.
+        -- rewrite nvirt_with_child. unfold nvirt, rn, new_node, nparents; simpl.
+           apply Hfr1. { rewrite path_ids_left, <- in_rev, in_seq. lia. }
+           pose proof (Hld0 1 ltac:(lia)) as Hd. rewrite Hsh in Hd by lia. unfold mps_shape_i in Hd.
+           assert (E : (0 <? r) = true) by (apply Nat.ltb_lt; lia). rewrite E in Hd.
+           assert (E' : (r <? length bonds) = true) by (apply Nat.ltb_lt; lia). rewrite E' in Hd. exact Hd.
+        -- exact HB1.
+        -- rewrite path_ids_right. apply seq_NoDup.
+        -- intros x Hx. rewrite path_ids_right in Hx. apply in_seq in Hx.
+           apply aget_None_keys. rewrite Hn1, Els. unfold path_nodes. rewrite <- Els.
+           rewrite akeys_app, akeys_chain_nodes, path_ids_left.
+           rewrite (akeys_aset_present _ _ _ rn) by auto. rewrite Hn0. simpl.
+           intros [E|E]; [lia|]. rewrite <- in_rev in E. apply in_seq in E. lia.
+        -- unfold right_steps. replace (nth r bonds 0) with (nth (S r - 1) bonds 0) by (f_equal; lia).
+           apply (right_dims_ok bonds opens Hlen (length shapes - S r) (S r)); fold shapes; lia.
+        -- pose proof (right_path_eq (right_steps shapes r) {| mst := s1; lefts := seq 0 r; rights := [] |} (right_steps_cleg shapes r)) as RP.
+           unfold right_end in RP; cbn [rights mst] in RP. unfold root_or0 in RP. rewrite Hroot1, Hroot0 in RP.
+           rewrite nvirt_with_child in Hp2. change (nvirt rn) with 0 in Hp2. rewrite Hp2 in RP. cbn [option_map] in RP.
+           unfold right_steps in RP. rewrite forM_map in RP. cbn [fst snd] in RP. rewrite RP. eauto.
+      * replace (length shapes - S r) with 0 by lia. simpl. eauto.
+Qed.
+
+(* ================================================================================================ *)
+(* summary statements                                                                                *)
+(* ================================================================================================ *)
+Theorem mps_from_list_struct shapes r m :
+  mps_from_list shapes r = Some m ->
+  r < length shapes /\ nodes (mst m) = mps_nodes shapes r /\ root (mst m) = Some r
+  /\ lefts m = seq 0 r /\ rights m = seq (S r) (length shapes - S r).
+Proof. intros H. destruct (mps_from_list_nodes _ _ _ H) as (A & B & C & D & E & _). auto. Qed.
+
+(* the chain: every site's neighbours are i-1 and i+1, parents point toward the root, the root is the
+   requested site, axis 0 / axis 1 of tensor i are bound to the left / right neighbour *)
+Theorem mps_chain shapes r m i :
+  mps_from_list shapes r = Some m -> i < length shapes ->
+  exists n, aget i (nodes (mst m)) = Some n
+    /\ (forall x, In x (neighbouring_nodes n) <-> (S x = i \/ (x = S i /\ x < length shapes)))
+    /\ parent n = (if i <? r then Some (S i) else if r <? i then Some (i - 1) else None)
+    /\ shape n = nth i shapes []
+    /\ (0 < i -> axis_to n (i - 1) = Some 0)
+    /\ (S i < length shapes -> axis_to n (S i) = Some (if i =? 0 then 0 else 1)).
+Proof.
+  intros H Hi. destruct (mps_from_list_nodes _ _ _ H) as (Hr & Hn & _ & _ & _ & _ & Hlr & Hroot).
+  exists (mps_node shapes r i). split.
+  - rewrite Hn. apply mps_nodes_site; auto.
+  - apply mps_site_facts; auto.
+Qed.
+
+(* bounded statements (finite parameter ranges, checked by evaluation of the model) *)
+Definition star_ok_b (dim sv cl nc : nat) : bool :=
+  match star_cps false (Z.of_nat sv) (Z.of_nat dim) (Z.of_nat cl) (Z.of_nat nc) with
+  | Some (m, _) => wfb (sst m) && Nat.eqb (length (nodes (sst m))) (1 + nc * cl)
+  | None => false
+  end.
+
+Theorem star_fixed_bounded dim sv cl nc :
+  In dim (seq 1 4) -> In sv (seq 0 dim) -> In cl (seq 1 4) -> In nc (seq 0 5) -> star_ok_b dim sv cl nc = true.
+Proof.
+  assert (G : forallb (fun dim => forallb (fun sv => forallb (fun cl => forallb (fun nc => star_ok_b dim sv cl nc)
+                (seq 0 5)) (seq 1 4)) (seq 0 dim)) (seq 1 4) = true) by (vm_compute; reflexivity).
+  intros H1 H2 H3 H4.
+  rewrite forallb_forall in G. specialize (G _ H1).
+  rewrite forallb_forall in G. specialize (G _ H2).
+  rewrite forallb_forall in G. specialize (G _ H3).
+  rewrite forallb_forall in G. exact (G _ H4).
+Qed.
+
+Definition binary_ok_b (n bd : nat) : bool :=
+  match binary_ttns (Z.of_nat n) (Z.of_nat bd) (if n =? 1 then [2] else [bd; 2]) with
+  | Some (s, lab) => wfb s && Nat.eqb (length (nodes s)) (2 * n - 1)
+  | None => false
+  end.
+
+Theorem binary_bounded n bd : In n (seq 1 16) -> In bd (seq 1 3) -> binary_ok_b n bd = true.
+Proof.
+  assert (G : forallb (fun n => forallb (fun bd => binary_ok_b n bd) (seq 1 3)) (seq 1 16) = true) by (vm_compute; reflexivity).
+  intros H1 H2. rewrite forallb_forall in G. specialize (G _ H1). rewrite forallb_forall in G. exact (G _ H2).
+Qed.
+
+Definition ftps_ok_b (w h bd : nat) : bool :=
+  match constant_ftps 2 (Z.of_nat w) (Z.of_nat h) (Z.of_nat bd) with
+  | Some m => wfb (fst_ m) && Nat.eqb (length (nodes (fst_ m))) (w * h) && Nat.eqb (length (mainc m)) h
+  | None => false
+  end.
+
+Theorem ftps_bounded w h bd : In w (seq 1 5) -> In h (seq 1 5) -> In bd (seq 1 3) -> ftps_ok_b w h bd = true.
+Proof.
+  assert (G : forallb (fun w => forallb (fun h => forallb (fun bd => ftps_ok_b w h bd) (seq 1 3)) (seq 1 5)) (seq 1 5) = true)
+    by (vm_compute; reflexivity).
+  intros H1 H2 H3. rewrite forallb_forall in G. specialize (G _ H1).
+  rewrite forallb_forall in G. specialize (G _ H2). rewrite forallb_forall in G. exact (G _ H3).
 Qed.
